@@ -15,7 +15,12 @@ Inductive ftree :=
 | FQuote (ts : list ftree)
 | FItem (mk : marker) (pad : nat) (ts : list ftree)
 | FHead (lv : nat) (c : Z) (body : str)                  (* an ATX heading: lv hashes, a space, the title c :: body *)
-| FRule (c : Z) (n : nat).                               (* a thematic break: 3 + n times the character c *)
+| FRule (c : Z) (n : nat)                                (* a thematic break: 3 + n times the character c *)
+| FEm (c0 : Z) (pre : str) (ch : Z) (double : bool) (w post : str).   (* a one-line paragraph: c0 :: pre, a run of ch, w, the run again, post *)
+
+(* the text of an FEm line after its first character *)
+Definition em_run (ch : Z) (double : bool) : str := if double then [ch; ch] else [ch].
+Definition em_body (pre : str) (ch : Z) (double : bool) (w post : str) : str := pre ++ em_run ch double ++ w ++ em_run ch double ++ post.
 
 Definition quote_s (l : sline) : sline :=
   match l with
@@ -46,6 +51,7 @@ Fixpoint spell (t : ftree) : list sline :=
   | FItem mk pad ts => item_lines mk pad (join_blank (map spell ts))
   | FHead lv c body => [SLine 0 35 (repeat 35 (lv - 1) ++ 32 :: c :: body)]
   | FRule c n => [SLine 0 c (repeat c (S (S n)))]
+  | FEm c0 pre ch double w post => [SLine 0 c0 (em_body pre ch double w post)]
   end.
 Definition spell_seq (ts : list ftree) : list sline := join_blank (map spell ts).
 Definition text_of (ls : list sline) : list str := map render_line ls.
@@ -73,6 +79,7 @@ Section Mode.
       PList ln [PItem ln (seq ln ts) (negb md && (1 <? Z.of_nat (length ts))) 0 (Z.of_nat (length (marker_str mk) + pad)) (marker_str mk)]
     | FHead lv c body => PHeading ln (Z.of_nat lv) (c :: body) []
     | FRule c n => PThematic ln [c :: repeat c (S (S n)) ++ [10]]
+    | FEm c0 pre ch double w post => PParagraph ln [c0 :: em_body pre ch double w post ++ [10]]
     end.
   Fixpoint pre_seq (ln : Z) (ts : list ftree) : list pre :=
     match ts with
@@ -84,7 +91,7 @@ End Mode.
 (* Paragraph.parse_setext after the block *)
 Fixpoint st_after (st : pstate) (t : ftree) : pstate :=
   match t with
-  | FPara _ _ _ | FFence _ _ _ | FHead _ _ _ | FRule _ _ => st
+  | FPara _ _ _ | FFence _ _ _ | FHead _ _ _ | FRule _ _ | FEm _ _ _ _ _ _ => st
   | FQuote _ => mkPs true
   | FItem _ _ ts => fold_left st_after ts st
   end.
@@ -92,6 +99,6 @@ Definition st_seq (st : pstate) (ts : list ftree) : pstate := fold_left st_after
 
 Fixpoint depth (t : ftree) : nat :=
   match t with
-  | FPara _ _ _ | FFence _ _ _ | FHead _ _ _ | FRule _ _ => 0%nat
+  | FPara _ _ _ | FFence _ _ _ | FHead _ _ _ | FRule _ _ | FEm _ _ _ _ _ _ => 0%nat
   | FQuote ts | FItem _ _ ts => S (fold_right (fun t m => Nat.max (depth t) m) 0%nat ts)
   end.
